@@ -96,6 +96,9 @@ func Load(dir string, tags string) (*Prog, error) {
 	p.collectFuncs()
 	p.indexCalls()
 	p.buildCanon()
+	if h := p.HashcodeFn(); h != nil && h.Object() != nil {
+		pureCallees[h.Object().(*types.Func).FullName()] = true
+	}
 	return p, nil
 }
 
